@@ -79,71 +79,6 @@ fn c16_support_m5() {
     c16_support_m(0.22314355131420976, 1.1203550294311373, 0.47216473448281543, 0.8962840235449098);
 }
 
-// =====================================================================================
-// C16 — the same support clause on samplers built by the REAL constructor `new(lambda)` (so that the check
-// does not depend on the field layout of the struct).  exp_m1 / exp / ln are replaced by tables holding the
-// libm values of exactly the arguments `new` passes for lambda = ln(m/(m-1)), m = 2, 3, 5 (computed natively);
-// any other argument gets an arbitrary value (that only concerns the last accept test of `sample`).
-// =====================================================================================
-pub(crate) fn exp_m1_table(x: f64) -> f64 {
-    if x == 0.6931471805599453 {
-        1.0
-    } else if x == 0.4054651081081644 {
-        0.5
-    } else if x == 0.22314355131420976 {
-        0.25
-    } else {
-        kani::any()
-    }
-}
-pub(crate) fn exp_table(x: f64) -> f64 {
-    if x == -0.6931471805599453 {
-        0.5
-    } else if x == -0.4054651081081644 {
-        0.6666666666666666
-    } else if x == -0.22314355131420976 {
-        0.8
-    } else {
-        let r: f64 = kani::any();
-        kani::assume(r > 0.0 && r.is_finite());
-        r
-    }
-}
-pub(crate) fn ln_table(x: f64) -> f64 {
-    if x == 1.3333333333333333 {
-        0.28768207245178085
-    } else if x == 1.2000000000000002 {
-        0.1823215567939548
-    } else if x == 1.1111111111111112 {
-        0.10536051565782635
-    } else {
-        let r: f64 = kani::any();
-        kani::assume(!r.is_nan());
-        r
-    }
-}
-
-fn c16_support_new(lambda: f64) {
-    let e = ExpRestricted01::new(lambda);
-    let mut rng = Xo::seed_from_u64(kani::any());
-    let x = e.sample(&mut rng);
-    assert!(x >= 0.0 && x < 1.0);
-    kani::cover!(rng.consumed() >= 3, "witness: slow path");
-    kani::cover!(rng.consumed() == 1, "witness: fast path");
-}
-
-macro_rules! c16_new_proof {
-    ($name:ident, $lambda:expr) => {
-        #[kani::proof]
-        #[kani::stub(f64::exp_m1, exp_m1_table)]
-        #[kani::stub(f64::exp, exp_table)]
-        #[kani::stub(f64::ln, ln_table)]
-        #[kani::unwind(2)]
-        fn $name() {
-            c16_support_new($lambda);
-        }
-    };
-}
-c16_new_proof!(c16_support_new_m2, 0.6931471805599453);
-c16_new_proof!(c16_support_new_m3, 0.4054651081081644);
-c16_new_proof!(c16_support_new_m5, 0.22314355131420976);
+// The harnesses that build the sampler with the REAL constructor `new(lambda)` live in exp01_new.rs; they are run in a
+// scratch copy of their own in which no other harness module is mounted, so that they keep compiling when the
+// field layout of ExpRestricted01 changes (the literal helper above does not).
